@@ -78,6 +78,7 @@ def Expr.rename (p : String) : Expr → Expr
   | .bin op a b => .bin op (a.rename p) (b.rename p)
   | .cond c t f => .cond (c.rename p) (t.rename p) (f.rename p)
   | .cast w e => .cast w (e.rename p)
+  | .sgn e => .sgn (e.rename p)
 
 def Stmt.rename (p : String) : Stmt → Stmt
   | .skip => .skip
@@ -86,6 +87,59 @@ def Stmt.rename (p : String) : Stmt → Stmt
   | .ite c t e => .ite (c.rename p) (t.rename p) (e.rename p)
   | .seq a b => .seq (a.rename p) (b.rename p)
   | .for_ d v i c st b => .for_ d (pfx p v) (i.rename p) (c.rename p) (st.rename p) (b.rename p)
+
+/-! ### variables of a signed type
+
+A variable declared `integer x;` is a signed 32-bit vector: a reference to the whole variable in an expression is
+its `$signed` view (`sgn (ident x)`); a bit / part select of it is unsigned (§11.8.1), an assignment target is the
+vector itself.  `sg` lists the names declared with a signed type in the module; a loop variable declared in a
+`for ( int unsigned v = … )` header shadows a module-level name. -/
+
+mutual
+/-- value position -/
+def Expr.elabS (sg : List String) : Expr → Expr
+  | .lit w v => .lit w v
+  | .num v => .num v
+  | .ident x => if sg.contains x then .sgn (.ident x) else .ident x
+  | .member e f => .member (e.elabR sg) f
+  | .index e i => .index (e.elabR sg) (i.elabS sg)
+  | .range e hi lo => .range (e.elabR sg) hi lo
+  | .plusSel e b w => .plusSel (e.elabR sg) (b.elabS sg) w
+  | .cat1 e => .cat1 (e.elabS sg)
+  | .concat a b => .concat (a.elabS sg) (b.elabS sg)
+  | .repl n e => .repl n (e.elabS sg)
+  | .un op e => .un op (e.elabS sg)
+  | .bin op a b => .bin op (a.elabS sg) (b.elabS sg)
+  | .cond c t f => .cond (c.elabS sg) (t.elabS sg) (f.elabS sg)
+  | .cast w e => .cast w (e.elabS sg)
+  | .sgn e => .sgn (e.elabS sg)
+/-- the root of a select chain / an assignment target: the variable itself; index expressions are values -/
+def Expr.elabR (sg : List String) : Expr → Expr
+  | .member e f => .member (e.elabR sg) f
+  | .index e i => .index (e.elabR sg) (i.elabS sg)
+  | .range e hi lo => .range (e.elabR sg) hi lo
+  | .plusSel e b w => .plusSel (e.elabR sg) (b.elabS sg) w
+  | .cat1 e => .cat1 (e.elabS sg)                  -- a select of a concatenation: its members are values
+  | .concat a b => .concat (a.elabS sg) (b.elabS sg)
+  | .repl n e => .repl n (e.elabS sg)
+  | e => e
+end
+
+def Stmt.elabS (sg : List String) : Stmt → Stmt
+  | .skip => .skip
+  | .blocking l r => .blocking (l.elabR sg) (r.elabS sg)
+  | .nonblocking l r => .nonblocking (l.elabR sg) (r.elabS sg)
+  | .ite c t e => .ite (c.elabS sg) (t.elabS sg) (e.elabS sg)
+  | .seq a b => .seq (a.elabS sg) (b.elabS sg)
+  | .for_ d v i c st b =>
+    let sg' := if d then sg.filter (· != v) else sg
+    .for_ d v (i.elabS sg) (c.elabS sg') (st.elabS sg') (b.elabS sg')
+
+def Item.elabS (sg : List String) : Item → Item
+  | .comb n b => .comb n (b.elabS sg)
+  | .ff n clk b => .ff n clk (b.elabS sg)
+  | .assign l r => .assign (l.elabR sg) (r.elabS sg)
+  | .inst m i conns => .inst m i (conns.map fun (p, e) => (p, e.elabS sg))
 
 /-- all index tuples of the unpacked dimensions, as select chains on `e` -/
 def expandDims (e : Expr) : List Nat → List Expr
@@ -251,6 +305,7 @@ def Expr.idents : Expr → List String
   | .bin _ a b => a.idents ++ b.idents
   | .cond c t f => c.idents ++ t.idents ++ f.idents
   | .cast _ e => e.idents
+  | .sgn e => e.idents
 
 /-- variables read: right-hand sides, conditions and the index expressions of targets -/
 def lhsReads : Expr → List String
